@@ -2,6 +2,7 @@ package harness
 
 import (
 	"encoding/binary"
+	"encoding/json"
 	"fmt"
 	"math/rand"
 	"os"
@@ -59,6 +60,7 @@ type rlScn struct {
 	nreq  int
 	nrep  int
 	rng   *rand.Rand
+	el    time.Duration // virtual time elapsed (for the absolute "advto" steps of TLC-generated scenarios)
 }
 
 // word encoding for the trace: top bit set -> negative
@@ -264,8 +266,19 @@ func (c *rlScn) step(st string) {
 	case "adv":
 		d, _ := time.ParseDuration(arg(1))
 		s.Adv(d)
+		c.el += d
 		c.snap()
 		return
+	case "advto":
+		// advto <seconds>: absolute virtual time (TLC-generated scenarios name the deadline they run into)
+		var sec int
+		fmt.Sscanf(arg(1), "%d", &sec)
+		if d := time.Duration(sec)*time.Second - c.el; d > 0 {
+			s.Adv(d)
+			c.el += d
+			c.snap()
+			return
+		}
 	case "cclose":
 		i := ci(arg(1))
 		if i > 0 {
@@ -486,10 +499,65 @@ func rlDeadline(kind string) []rlCfg {
 	return out
 }
 
+// rlFromTLC loads the scenarios TLC generated from spec/mc/MC_RepScn.tla for this kind of socket (the name of the
+// model configuration selects the options) and picks a seeded sample.
+func rlFromTLC(path, kind string, rng *rand.Rand, n int) []rlCfg {
+	sec := time.Second
+	mixed := []rlCtxOpt{{SendExp: 2 * sec, RecvExp: 3 * sec}, {BestEffort: true}}
+	plain := []rlCtxOpt{{}, {}}
+	mixes := map[string]rlCfg{
+		"rep_mixed":         {Kind: "rep", Opts: mixed, TTL: 2, SQ: 1, RQ: 0},
+		"respondent_mixed":  {Kind: "respondent", Opts: mixed, TTL: 2, SQ: 1, RQ: 1},
+		"rep_plain0":        {Kind: "rep", Opts: plain, TTL: 2, SQ: 0, RQ: 0},
+		"respondent_plain0": {Kind: "respondent", Opts: plain, TTL: 2, SQ: 0, RQ: 2},
+	}
+	data, err := os.ReadFile(path)
+	if err != nil {
+		panic(err)
+	}
+	var all []rlCfg
+	for _, ln := range strings.Split(string(data), "\n") {
+		if strings.TrimSpace(ln) == "" {
+			continue
+		}
+		var x struct {
+			Opt   string   `json:"opt"`
+			Steps []string `json:"steps"`
+		}
+		if err := json.Unmarshal([]byte(ln), &x); err != nil {
+			panic(err)
+		}
+		c, ok := mixes[x.Opt]
+		if !ok {
+			panic("unknown option mix " + x.Opt)
+		}
+		if c.Kind != kind {
+			continue
+		}
+		c.Steps = x.Steps
+		all = append(all, c)
+	}
+	rng.Shuffle(len(all), func(i, j int) { all[i], all[j] = all[j], all[i] })
+	if n < len(all) {
+		all = all[:n]
+	}
+	return all
+}
+
 func testRepLike(t *testing.T, kind string) {
 	out := newOut(t, kind)
 	defer out.Close()
 	rng := rand.New(rand.NewSource(seed()))
+	if f := os.Getenv("VERIF_SCN_FILE"); f != "" {
+		for i, cfg := range rlFromTLC(f, kind, rng, count(400, 1000000)) {
+			if out.Stop() {
+				break
+			}
+			res := runRepLike(t, cfg, seed()*1000+int64(i))
+			out.Add(fmt.Sprintf("%sscn-%d", kind, i), rlCfgEv(cfg), fmt.Sprint(cfg), res)
+		}
+		return
+	}
 	cfgs := rlScripted(kind)
 	if os.Getenv("VERIF_MIX") == "deadline" {
 		cfgs = rlDeadline(kind)
